@@ -24,7 +24,7 @@ CLAIMS = {
             "short histories compared with the model", "I.4 C03"),
     "C04": ("Theorems C04_serializable (every reachable, completed world of the lock protocol - any number of requests, key lists and "
             "interleavings - is a serial execution in commit order with exactly the returned verdicts and the reached store) and "
-            "C04_realtime_order; refutation for first-key-only locking. PARTIAL: sync.Mutex / sync.Map / memory model trusted. "
+            "C04_realtime_order, C04_concurrent_is_sequential_rules (that serial execution is a run of the rules model of C01/C02/C05); refutation for first-key-only locking. PARTIAL: sync.Mutex / sync.Map / memory model trusted. "
             "Correspondence: recording locker + store hooks give the real-time event order of steered concurrent runs, which the model "
             "must accept as a schedule with the observed verdicts and store; per-request protocol conformance; rivals / lost-update monitor", "I.4 C04"),
     "C05": ("Theorem C05_domain_separation (all domains of any length via their first four bytes, all admin lists and source addresses, all "
@@ -81,7 +81,7 @@ CLAIMS = {
             "correspondence at the real receiver handlers over caller identities x five messages x session states; share ownership checked "
             "with the BLS library for every (replier, caller) pair", "I.4 C16"),
     "C17": ("Theorems C17_one_session_per_name, C17_prepare_while_active, C17_refused_without_session, C17_commit_needs_everyone, "
-            "C17_gone_afterwards, C17_new_generation_may_start over every event sequence of the session-table model (logical clock); "
+            "C17_commit_needs_everyone_reachable (its hypothesis is an invariant of every cooperative history), C17_gone_afterwards, C17_new_generation_may_start over every event sequence of the session-table model (logical clock); "
             "correspondence after every event of generated sequences on a real instance with cooperating real peers and real expiry: reply "
             "class, generation table, wallet contents; the lifecycle is also judged directly on the implementation's table", "I.4 C17"),
     "C18": ("Theorems C18_listing_sound_and_complete (membership in the answer <=> requested known wallet, account present in base or "
